@@ -243,4 +243,5 @@ func TestC19(t *testing.T) {
 		}
 	}
 	c19Part.Run(s, hx.PerShard(hx.Pick(24000, 320000)))
+	c19Part.RunConcurrent(s, 8, hx.Pick(150, 2500))
 }
